@@ -48,6 +48,9 @@ class OrthogonalStub(torch.nn.Module):
                 e = rv(1 if i == j else 0)
                 ctx.assume(sum((A[k, i] * A[k, j] for k in range(Dn)), rv(0)) == e)
                 ctx.assume(sum((A[i, k] * A[j, k] for k in range(Dn)), rv(0)) == e)
+        # |det A| = 1 (proved for the Householder product as C11.det-is-unit; over the reals it follows from A^T A = I by det(A^T A) = det(A)^2)
+        dA = det_cofactor(A)
+        ctx.assume(z3.Or(dA == 1, dA == -1))
 
     def _mul(self, inputs, M):
         from tsv.ops_move import mat_mul
@@ -81,6 +84,49 @@ def naive_pre(ctx, t):
         ctx.assume(det_cofactor(np.vectorize(toreal, otypes=[object])(P(t._weight))) != 0)
 
 
+def det_factorisation(h, ctx, W):
+    """helper lemma for the orthogonal-stub classes: det W = (product of the orthogonal factors' determinants) * (product of the diagonal scales) - a polynomial
+    identity (multiplicativity of the determinant), proved by the ring tactic and then available to the log-abs-det clauses"""
+    t = h.t
+    stubs = [m for m in t._modules.values() if isinstance(m, OrthogonalStub)]
+    if not stubs or W.shape[0] < 3:
+        return None
+    if hasattr(t, "diagonal") and not callable(getattr(type(t), "diagonal", None)):
+        diag = [toreal(v) for v in P(t.diagonal).reshape(-1)]
+    elif hasattr(t, "log_upper_diag"):
+        from tsv.ops import s_exp
+        diag = [s_exp(toreal(v)) for v in P(t.log_upper_diag).reshape(-1)]
+    else:
+        return None
+    rhs = rv(1)
+    for m in stubs: rhs = rhs * det_cofactor(m.A)
+    for d in diag: rhs = rhs * d
+    loc = ("contract", h.hid.split("[")[0], 0)
+    dW = det_cofactor(W)
+    ctx.check("cut-lemma", dW == rhs, label="C11.det-factorises", loc=loc, meta={"tactic": "ring"})
+    # |det W| = product of the (positive) scales: from det A = +-1 of each orthogonal factor, on named unknowns so that the arithmetic stays small
+    us = [z3.Real(f"detA{k}") for k in range(len(stubs))]
+    ds = [z3.Real(f"scale{k}") for k in range(len(diag))]
+    f_us = [u == det_cofactor(m.A) for u, m in zip(us, stubs)]
+    f_ds = [d_ == d for d_, d in zip(ds, diag)]
+    for f in f_us + f_ds: ctx.assume(f)        # definitions of fresh names
+    pu = rv(1)
+    for u in us: pu = pu * u
+    pd = rv(1)
+    for d_ in ds: pd = pd * d_
+    f_sign = [z3.Or(u == 1, u == -1) for u in us]
+    for u, f in zip(us, f_sign):
+        ctx.check("cut-lemma", f, label="C11.det-factor-is-unit", loc=loc)
+    f_pos = [d_ > 0 for d_ in ds]
+    for f in f_pos:
+        ctx.check("cut-lemma", f, label="C11.scale-positive", loc=loc)
+    absprod = z3.If(pu * pd >= 0, pu * pd, -(pu * pd)) == pd
+    ctx.check("cut-lemma", absprod, label="C11.abs-of-signed-product", loc=loc, hyps=f_sign + f_pos)
+    f_det = dW == rhs
+    ctx.check("cut-lemma", zabs(dW) == pd, label="C11.abs-det-is-product-of-scales", loc=loc, hyps=[f_det, absprod] + f_us + f_ds + f_sign + f_pos)
+    return [zabs(dW) == pd] + f_ds + f_pos
+
+
 def linear_harness(cname, Dn, K, mode):
     """mode: accessors | forward | inverse_of_forward"""
     B = 2
@@ -97,6 +143,9 @@ def linear_harness(cname, Dn, K, mode):
         if cname == "Householder":
             if mode == "accessors":
                 return t.matrix()
+            if mode == "inverse":
+                xi, ldi = t.inverse(x)
+                return xi, ldi, t.matrix()
             y, ld = t.forward(x)
             if mode == "forward":
                 return y, ld, t.matrix()
@@ -122,16 +171,20 @@ def linear_harness(cname, Dn, K, mode):
             ensure(h, ctx, "C11.shape", z3.BoolVal(tuple(M.shape) == (Dn, Dn)))
             for i in range(Dn):
                 for j in range(Dn):
-                    ensure(h, ctx, "C11.orthogonal", sum((M[k, i] * M[k, j] for k in range(Dn)), rv(0)) == eye(i, j))
+                    ensure(h, ctx, "C11.orthogonal", sum((M[k, i] * M[k, j] for k in range(Dn)), rv(0)) == eye(i, j), meta={"tactic": "ring"})
+                    ensure(h, ctx, "C11.orthogonal-rows", sum((M[i, k] * M[j, k] for k in range(Dn)), rv(0)) == eye(i, j), meta={"tactic": "ring"})
+            dM = det_cofactor(M)
+            ensure(h, ctx, "C11.det-is-unit", dM * dM == 1, meta={"tactic": "ring"})
             return
         if mode == "accessors":
             W, V, L = (P(v) for v in value)
             ensure(h, ctx, "C11.shape", z3.BoolVal(tuple(W.shape) == (Dn, Dn) and tuple(V.shape) == (Dn, Dn) and L.shape == ()))
             for i in range(Dn):
                 for j in range(Dn):
-                    ensure(h, ctx, "C11.inverse-is-inverse", sum((W[i, k] * V[k, j] for k in range(Dn)), rv(0)) == eye(i, j))
+                    ensure(h, ctx, "C11.inverse-is-inverse", sum((W[i, k] * V[k, j] for k in range(Dn)), rv(0)) == eye(i, j), meta={"tactic": "ring"})
             numr, den = exp_of_term(L[()])
-            ensure(h, ctx, "C11.logabsdet-is-log-abs-det", zabs(det_cofactor(W)) * den == numr)
+            hy = det_factorisation(h, ctx, W)
+            ensure(h, ctx, "C11.logabsdet-is-log-abs-det", zabs(det_cofactor(W)) * den == numr, hyps=hy)
             return
         if mode == "forward":
             if cname == "Householder":
@@ -141,20 +194,30 @@ def linear_harness(cname, Dn, K, mode):
                     ensure(h, ctx, "C01.logdet", P(ld)[b] == 0)
                     for i in range(Dn):
                         # forward(x) = x @ matrix()^T : the map is the linear map of its matrix (stub contract of the QR / SVD proofs)
-                        ensure(h, ctx, "C11.forward-is-matrix", P(y)[b, i] == sum((px[b, k] * M[i, k] for k in range(Dn)), rv(0)))
+                        ensure(h, ctx, "C11.forward-is-matrix", P(y)[b, i] == sum((px[b, k] * M[i, k] for k in range(Dn)), rv(0)), meta={"tactic": "ring"})
                 return
             y, ld, Wt, L = value
             W = P(Wt); bias = P(t.bias)
             from tsv.terms import base_symbols
             xid = {px[idx].get_id(): idx for idx in np.ndindex(*px.shape)}
+            hy = det_factorisation(h, ctx, W)
             rows = all(xid[s_][0] == b for b in range(B) for t_ in list(P(y)[b]) + [P(ld)[b]] for s_ in base_symbols(t_) if s_ in xid)
             ensure(h, ctx, "C12.row-independent", z3.BoolVal(rows))
             ensure(h, ctx, "C13.no-write", z3.BoolVal(not [w for w in ctx.writes if w[0] != "fresh"]))
             for b in range(B):
                 for i in range(Dn):
-                    ensure(h, ctx, "C11.forward-is-affine", P(y)[b, i] == sum((W[i, k] * px[b, k] for k in range(Dn)), rv(0)) + bias[i])
+                    ensure(h, ctx, "C11.forward-is-affine", P(y)[b, i] == sum((W[i, k] * px[b, k] for k in range(Dn)), rv(0)) + bias[i], meta={"tactic": "ring"})
                 numr, den = exp_of_term(P(ld)[b])
-                ensure(h, ctx, "C01.logdet", zabs(det_cofactor(W)) * den == numr)
+                ensure(h, ctx, "C01.logdet", zabs(det_cofactor(W)) * den == numr, hyps=hy)
+            return
+        if mode == "inverse" and cname == "Householder":
+            # inverse(y) = y @ matrix(): with matrix()^T matrix() = I (accessors) and forward(x) = x @ matrix()^T this is the inverse of forward
+            xi, ldi, Mt = value
+            M = P(Mt)
+            for b in range(B):
+                ensure(h, ctx, "C02.neg-logdet", P(ldi)[b] == 0)
+                for i in range(Dn):
+                    ensure(h, ctx, "C11.inverse-is-transposed-matrix", P(xi)[b, i] == sum((px[b, k] * M[k, i] for k in range(Dn)), rv(0)), meta={"tactic": "ring"})
             return
         if mode == "inverse":
             # inverse(y) = (y - b) V^T and its log-det is -logabsdet(): with W V = I (accessors) this is the inverse of forward
@@ -162,12 +225,12 @@ def linear_harness(cname, Dn, K, mode):
             V = P(Vt); bias = P(t.bias)
             for b in range(B):
                 for i in range(Dn):
-                    ensure(h, ctx, "C02.inverse-is-affine-inverse", P(xi)[b, i] == sum((V[i, k] * (px[b, k] - bias[k]) for k in range(Dn)), rv(0)))
+                    ensure(h, ctx, "C02.inverse-is-affine-inverse", P(xi)[b, i] == sum((V[i, k] * (px[b, k] - bias[k]) for k in range(Dn)), rv(0)), meta={"tactic": "ring"})
                 ensure_logs_cancel(h, ctx, "C02.neg-logdet", P(ldi)[b] + P(L)[()])
             return
         y, ld, x2, ldi = value
         for a, b_ in zip(P(x2).reshape(-1), px.reshape(-1)):
-            ensure(h, ctx, "C02.roundtrip_if", a == b_)
+            ensure(h, ctx, "C02.roundtrip_if", a == b_, meta={"tactic": "ring"})
         for b in range(B):
             ensure_logs_cancel(h, ctx, "C02.neg-logdet", P(ld)[b] + P(ldi)[b])
 
@@ -183,6 +246,8 @@ def linear_harness(cname, Dn, K, mode):
         if cname == "Householder":
             if mode == "accessors":
                 return torch.stack([t.forward(torch.eye(Dn, dtype=torch.float64)[i:i + 1])[0][0] for i in range(Dn)])   # rows = images of basis vectors
+            if mode == "inverse":
+                xi, ldi = t.inverse(x); return xi, ldi, t.matrix()
             y, ld = t.forward(x)
             if mode == "forward": return y, ld, t.matrix()
             x2, ldi = t.inverse(y); return y, ld, x2, ldi
@@ -210,6 +275,9 @@ def linear_harness(cname, Dn, K, mode):
             if cname != "Householder":
                 c["C11.forward-is-affine"] = bool(torch.allclose(res[0], x @ res[2].t() + t.bias, atol=1e-8))
             return c
+        if mode == "inverse" and cname == "Householder":
+            xi, ldi, M = res
+            return {"C11.inverse-is-transposed-matrix": bool(torch.allclose(xi, x @ M, atol=1e-8)), "C02.neg-logdet": bool(torch.allclose(ldi, torch.zeros_like(ldi)))}
         if mode == "inverse":
             xi, ldi, V, L = res
             return {"C02.inverse-is-affine-inverse": bool(torch.allclose(xi, (x - t.bias) @ V.t(), atol=1e-8)), "C02.neg-logdet": bool(torch.allclose(ldi, -L * torch.ones_like(ldi), atol=1e-8))}
@@ -294,21 +362,21 @@ class _null:
 
 
 def linear_harnesses(tier, modes=("accessors", "forward", "inverse_of_forward")):
+    """3x3 and larger cases rest on the ring back end (rational-function identities, Groebner reduction modulo the orthogonality relations of the stubs)"""
     hs = []
     for cname in ("LULinear", "NaiveLinear"):
         for Dn in ((1, 2) if tier == "quick" else (1, 2, 3)):
             for mode in modes:
-                if mode == "inverse_of_forward" and cname == "NaiveLinear" and Dn >= 3:
-                    mode = "inverse"       # 3x3 adjugate round trip stays unknown; the lemma form (affine inverse with V, W V = I) is used instead
                 hs.append(linear_harness(cname, Dn, 0, mode))
     for cname in ("QRLinear", "SVDLinear", "Householder"):
-        for Dn, K in (((1, 1), (2, 1), (2, 2)) if tier == "quick" else ((1, 1), (1, 2), (2, 1), (2, 2), (3, 2))):
+        grid = ((1, 1), (2, 1), (2, 2)) if tier == "quick" else ((1, 1), (1, 2), (2, 1), (2, 2), (3, 2))
+        if tier != "quick" and cname == "Householder":
+            grid = grid + ((3, 3), (4, 2))
+        for Dn, K in grid:
             if cname == "SVDLinear" and K % 2:
                 continue          # SVDLinear asserts an even number of Householder transforms
-            if cname in ("QRLinear", "SVDLinear") and Dn >= 3:
-                continue          # the 3x3 orthogonal-stub determinant identity stays `unknown` in z3: not claimed
             for mode in modes:
-                if mode == "inverse_of_forward" and cname != "Householder":
+                if mode == "inverse_of_forward" and (cname != "Householder" or (Dn, K) in ((3, 3), (4, 2))):
                     mode = "inverse"       # round trip = lemma over the contracts: forward-is-affine(W), inverse-is-affine-inverse(V), W V = I
                 hs.append(linear_harness(cname, Dn, K, mode))
     return hs
